@@ -8,6 +8,3 @@ const Scenario scen_threads = { "threads", NOOPS, 1, gen_none, exec_none, "C13" 
 #ifndef HAVE_SCEN_DISPATCH
 const Scenario scen_dispatch = { "dispatch", NOOPS, 1, gen_none, exec_none, "C08" };
 #endif
-#ifndef HAVE_SCEN_FILES
-const Scenario scen_files = { "files", NOOPS, 1, gen_none, exec_none, "C20" };
-#endif
